@@ -56,7 +56,7 @@ class C11(Machine):
     # ---------------------------------------------------------------- plan
     def plan(self, tier):
         if tier == 'quick':
-            return {'runs': 480, 'budget_s': 420, 'det_runs': 3,
+            return {'runs': 480, 'budget_s': 700, 'det_runs': 3,
                     'run_timeout': 180, 'shrink_s': 150}
         return {'runs': 12000, 'budget_s': 3000, 'det_runs': 5,
                 'run_timeout': 300, 'shrink_s': 300}
